@@ -197,6 +197,19 @@ CLAIMED['C13'] = dict(
     technique='TLA+ spec (FilterPosterior.tla extending PopLayout.tla) model-checked with TLC; spec->code replay of every '
               'enumerated configuration',
     design='6/C13')
+CLAIMED['C14'] = dict(
+    engine='Controller',
+    text='The specification defines, for a long-format dataset, the posterior it describes: individuals in first-occurrence '
+         'order, per individual and output the (time, value) pairs of the mapped observable in row order, the dose events of '
+         'its own dose rows (bolus by default) and its covariate value; TLC enumerates all datasets of a few extra rows over '
+         'seven row kinds and checks routing sanity (each usable measurement routed once, unrelated rows irrelevant, own rows '
+         'only). Datasets are replayed as pandas frames (int or string ids, extra column) through ProblemModellingController '
+         'on a dosed PKPD model; regimens, names, IDs, value and gradient must equal those of the posterior assembled by hand '
+         'from the specification record, in individual, population and population+covariate mode.',
+    note='RefSim stands in for the solver; bounded datasets (<= 2-3 extra rows + base rows, 1-2 individuals, 2 times); the '
+         'hand-assembled posterior uses the plain constructors as oracle',
+    technique='TLA+ spec (Controller.tla) model-checked with TLC; spec->code replay with a hand-assembled differential oracle',
+    design='6/C14')
 
 NOT_YET = {
 }
